@@ -274,8 +274,13 @@ Http::One::RequestParser::parseRequestFirstLine()
     // Now, the request line has to end at the first LF.
     static const CharacterSet lineChars = CharacterSet::LF.complement("notLF");
     Tokenizer lineTok(buf_);
-    if (!lineTok.prefix(line, lineChars) || !lineTok.skip('\n')) {
-        if (buf_.length() >= Config.maxRequestHeaderSize) {
+    const bool foundLine = lineTok.prefix(line, lineChars) && lineTok.skip('\n');
+    // The size limit applies to the request-line regardless of how many bytes
+    // happened to arrive together with it: a line that would be rejected when
+    // received without its LF must also be rejected when received whole.
+    const auto lineBytes = foundLine ? line.length() : buf_.length();
+    if (!foundLine || lineBytes >= Config.maxRequestHeaderSize) {
+        if (lineBytes >= Config.maxRequestHeaderSize) {
             /* who should we blame for our failure to parse this line? */
 
             Tokenizer methodTok(buf_);
